@@ -467,6 +467,13 @@ class _CB(flow.DefaultCB):
         if isinstance(t, ast.Subscript):
             base, s = self.ev(t.value, s)
             idx, s = self.ev(t.slice, s, quiet=True)
+            if isinstance(base, ShapeV) and isinstance(t.value, ast.Name):
+                # sizes[d] = n on a local list of extents
+                from kfv.tensor_ops import dim_of
+                d = dim_of(idx, len(base.axes))
+                if d is not None and 0 <= d < len(base.axes) and isinstance(v, SV) and (v.kind == 'size' or v.text == '1'):
+                    return s.set(t.value.id, ShapeV(base.axes[:d] + (_axis_of(v),) + base.axes[d + 1:]))
+                return s.set(t.value.id, ShapeV(tuple('?' for _ in base.axes)))
             self.it.events.append(('subscript-store', self.f, st, (base, idx, v, t)))
             if isinstance(base, TV) and base.alias:
                 self.it.events.append(('inplace', self.f, st, (f'subscript store {norm(t)[:60]}', base)))
@@ -768,6 +775,13 @@ class _CB(flow.DefaultCB):
                     u = umul(u, a.unit, 1 if n > 0 else -1)
                 return SV(u, f'{a.text}^{n}', 'num')
             return Top('pow')
+        if isinstance(op, ast.FloorDiv) and isinstance(a, SV) and isinstance(b, SV) and a.kind == 'size' and b.kind == 'mp':
+            ax = a.size
+            if isinstance(ax, tuple) and ax and ax[0] in ('gathered', 'times-mp'):
+                return SV((), f'({a.text}//mp)', 'size', ax[1])
+            if getattr(it, 'single_partition', False):
+                return a
+            return SV((), f'({a.text}//mp)', 'size', ('shard', ax))
         if isinstance(op, ast.FloorDiv) and isinstance(a, SV) and isinstance(b, SV):
             return SV((), f'({a.text}//{b.text})', 'num')
         return Top(f'operator {type(op).__name__}')
